@@ -456,7 +456,7 @@ def handle_validation(ctx, v, events, kind, script_of=None, max_samples=3):
 
 
 def run_batch(ctx, *, tag, scripts, pkg_rel, pkgname, files, test, trace_module, nontrivial=None, race=False,
-              deque=False, go_timeout=900, tlc_timeout=1800, extra_env=None, trace_cfg=None, xss=None):
+              deque=False, go_timeout=900, tlc_timeout=1800, extra_env=None, trace_cfg=None, xss=None, culprit_hint=None):
     """Execute scripts (one JSON object each) on the real code through an injected Go test, then validate the recorded
     ndjson trace (one `reset` event per script, in script order) with a Trace_* module.  Returns the event list or None."""
     if not scripts:
@@ -479,6 +479,8 @@ def run_batch(ctx, *, tag, scripts, pkg_rel, pkgname, files, test, trace_module,
         # reset event is the last one flushed to the trace
         nres = sum(1 for e in events if e.get("a") == "reset")
         culprit = scripts[nres - 1] if 0 < nres <= len(scripts) else None
+        if culprit_hint:       # a background goroutine of an EARLIER script may have crashed the process
+            culprit = culprit_hint(scripts[:max(nres, 0)], out) or culprit
         if "DATA RACE" in out:
             what = "%s: Go race detector report while executing a script" % tag
         elif "panic:" in out or "fatal error:" in out:
